@@ -8,6 +8,8 @@ def run(ctx):
     stage_steps(ctx, stages=['Filter', 'Splitter', 'Selection', 'PreSet'], want=('frame', 'contract'))
     read_input(ctx, ['read.one_context_per_value', 'read.locations'])
     regex_cache(ctx)
+    from ..scen_parser import tokenizer
+    tokenizer(ctx, 2, ['tok.value', 'tok.consumed', 'tok.garbage', 'tok.end'], 'full alphabet n=2: the reader carries nothing from one value (or one malformed text) to the next but its look-ahead byte and location', partition=1)
     from ..scen_misc import record_local_premise
     record_local_premise(ctx)
     from ..scen_purity import getter_purity
